@@ -82,7 +82,6 @@ def _report(run, cfg, build, insts_by_id, viols, flags):
 def _check_units(run, cfg, build, insts_by_id, stats):
     for s in stats:
         it = insts_by_id[s["inst"]]
-        base = {"12": 1}
         want = model.mag_of_fraction(it.g)
         for fld, okf in (("sum_unit", "rep_ok"), ("mod_unit", "mod_rep_ok")):
             if not s[okf]:
@@ -104,7 +103,7 @@ def check(run):
     insts = S.instances(tier)
     probe_cfgs = core.CORNERS if quick else core.CFG6
     mism, nacc, nrej = _probe(run, insts, probe_cfgs)
-    radius = 12 if quick else 72
+    radius = 12 if quick else 64
     fexp = (-12, 40, 4) if quick else (-20, 60, 2)
     _prepare(insts, radius)
     sweeps = [(core.GXX14, [], "g++-14"), (core.CLANG20, S.UBSAN, "clang-20-ubsan")]
